@@ -204,6 +204,43 @@ func main() {
 					fail("every_error_mapped", "get-session-failure-code", fmt.Sprintf("GetSession(%d): the local call fails with %v (status %s), the facade reports %s", sid, lerr, status.Code(drummer.GRPCError(lerr)), status.Code(ferr)))
 				}
 			}
+			if !isHosted && q%2 == 0 {
+				// Propose and Read for a shard this NodeHost does not host, with both kinds of session: whatever the local call
+				// says goes through the status-code table
+				cmd, _ := (&kv.KV{Key: "k", Val: "v"}).MarshalBinary()
+				for _, ps := range []*mr.Session{
+					{ShardID: sid, ClientID: 123456, SeriesID: client.SeriesIDFirstProposal, RespondedTo: 0},
+					drummer.ToPBSession(h.NH.GetNoOPSession(sid))} {
+					_, lerr := h.NH.SyncPropose(ctx(), drummer.ToNodeHostSession(ps), cmd)
+					var ferr error
+					fc := func() (c bool) {
+						defer func() {
+							if r := recover(); r != nil {
+								c = true
+							}
+						}()
+						_, ferr = api.Propose(ctx(), &mr.RaftProposal{Session: ps, Data: cmd})
+						return false
+					}()
+					kind := map[bool]string{true: "noop", false: "tracked"}[drummer.ToNodeHostSession(ps).IsNoOPSession()]
+					run.Count("c19:propose_on_non_hosted_" + kind)
+					_, isStatus := status.FromError(ferr)
+					switch {
+					case fc:
+						fail("every_error_mapped", "propose-failure-crashes", fmt.Sprintf("Propose(%d) with a %s session on a shard that is not hosted crashed the facade (the local call returns %v)", sid, kind, lerr))
+					case lerr != nil && ferr == nil:
+						fail("every_error_mapped", "propose-failure-hidden", fmt.Sprintf("Propose(%d) with a %s session: the local call fails with %v, the facade reports success", sid, kind, lerr))
+					case lerr != nil && (!isStatus || status.Code(ferr) != status.Code(drummer.GRPCError(lerr))):
+						fail("every_error_mapped", "propose-failure-code", fmt.Sprintf("Propose(%d) with a %s session: the local call fails with %v (status %s), the facade reports %v (a status: %v, code %s)", sid, kind, lerr, status.Code(drummer.GRPCError(lerr)), ferr, isStatus, status.Code(ferr)))
+					}
+				}
+				_, lerr := h.NH.SyncRead(ctx(), sid, []byte("k"))
+				_, ferr := api.Read(ctx(), &mr.RaftReadIndex{ShardId: sid, Data: []byte("k")})
+				run.Count("c19:read_on_non_hosted")
+				if _, isStatus := status.FromError(ferr); lerr != nil && (ferr == nil || !isStatus || status.Code(ferr) != status.Code(drummer.GRPCError(lerr))) {
+					fail("every_error_mapped", "read-failure-code", fmt.Sprintf("Read(%d): the local call fails with %v (status %s), the facade reports %v", sid, lerr, status.Code(drummer.GRPCError(lerr)), ferr))
+				}
+			}
 			if err == nil && isHosted {
 				// the facade is transparent: propose and read through it, then read locally
 				cmd, _ := (&kv.KV{Key: fmt.Sprintf("k%d", q), Val: fmt.Sprintf("v%d", q)}).MarshalBinary()
